@@ -28,6 +28,8 @@ type Profile struct {
 	BatchRate       float64 // probability that a mutation is a multi-channel StoreAppendBatch
 	TrimRetry       float64 // probability that a trim is followed by a retry of a key that survived it
 	TrimScenario    float64 // probability that the history starts with the scripted trim -> retry prelude
+	DiscardRate     float64 // probability that a mutation is compat DiscardForRestore of the channel
+	BigDiscard      float64 // probability that the history is the > 1024-row multi-page discard script
 }
 
 // planRow is the planner's estimate of one stored row.
@@ -401,6 +403,48 @@ func (g *planner) truncNote(c int, keepThrough uint64) {
 	}
 }
 
+// noteDiscard: the channel is gone, a later append starts again at sequence 1.
+func (g *planner) noteDiscard(c int) {
+	g.ch[c] = planChan{}
+}
+
+// bigDiscard: more rows than one DiscardForRestore page (1024) in one channel, a
+// few rows in another, checkpoint, then the discard (two pages + terminal batch)
+// and a short tail that reuses the channel from sequence 1.
+func (g *planner) bigDiscard() []Op {
+	c := g.r.IntN(NChans)
+	other := (c + 1) % NChans
+	var ops []Op
+	total := 1030 + g.r.IntN(60)
+	for total > 0 {
+		k := min(total, 300+g.r.IntN(100))
+		recs := make([]Rec, k)
+		for i := range recs {
+			g.nextID++
+			recs[i] = Rec{ID: g.nextID, Pl: "61", Ts: 5}
+			if i%97 == 0 {
+				recs[i].Uid, recs[i].Cno = vh.Pick(g.r, uidPool...), g.freshCno()
+			}
+		}
+		ops = append(ops, Op{K: "append", C: c, Mode: 2, Recs: recs})
+		g.noteAppend(c, recs)
+		total -= k
+	}
+	g.nextID++
+	o := Rec{ID: g.nextID, Uid: "u1", Cno: g.freshCno(), Pl: "6f", Ts: 1}
+	ops = append(ops, Op{K: "append", C: other, Recs: []Rec{o}})
+	g.noteAppend(other, []Rec{o})
+	ops = append(ops, Op{K: "ckpt", C: c, Ck: &Ck{E: 1, H: g.ch[c].leo}})
+	if vh.Chance(g.r, 0.5) {
+		ops = append(ops, Op{K: "trim", C: c, A: uint64(1 + g.r.IntN(5))})
+	}
+	ops = append(ops, Op{K: "discard", C: c})
+	g.noteDiscard(c)
+	ops = append(ops, Op{K: "leo", C: c}, Op{K: "read", C: c, A: 1})
+	ops = append(ops, g.appendOp(c), Op{K: "read", C: other, A: 1})
+	return ops
+}
+
 // survivors lists the keyed rows the planner expects above every trim boundary.
 func (g *planner) survivors(c int) []planRow {
 	pc := &g.ch[c]
@@ -529,6 +573,10 @@ func (g *planner) mutOp(c int) Op {
 	if vh.Chance(g.r, g.p.BatchRate) {
 		return g.cbatchOp()
 	}
+	if g.p.DiscardRate > 0 && vh.Chance(g.r, g.p.DiscardRate) {
+		g.noteDiscard(c)
+		return Op{K: "discard", C: c}
+	}
 	switch {
 	case x < 40:
 		return g.appendOp(c)
@@ -594,6 +642,9 @@ func (g *planner) mutOp(c int) Op {
 // GenHistory draws one history.
 func GenHistory(r *rand.Rand, p Profile) Input {
 	g := &planner{r: r, p: p}
+	if p.BigDiscard > 0 && vh.Chance(r, p.BigDiscard) {
+		return Input{Ops: g.bigDiscard(), Compact: true}
+	}
 	n := p.MinOps + r.IntN(p.MaxOps-p.MinOps+1)
 	ops := make([]Op, 0, n+8)
 	if p.Saturate {
